@@ -11,7 +11,8 @@ spec = {
   "ops": [op...]
 }
 op = {"name", "ostyle": None|"document"|"rpc", "action": None|str, "body_ns": None|str,
-      "in": msg, "out": msg, "in_sel": None|[part names], "in_headers": [hdr], "out_headers": [hdr],
+      "in": msg, "out": msg, "in_sel"/"out_sel": None|[part names] (soap:body parts=), "in_headers": [hdr], "out_headers": [hdr]
+      (a hdr may name the operation's own input/output message: header and body parts of one message),
       "faults": [{"name", "msg": msg}]}
 msg = {"name", "parts": [{"name", "kind": "element"|"type", "ref": str}]}
 hdr = {"msg": msg, "part": str}
@@ -157,7 +158,7 @@ def render(spec) -> dict:
         if op.get("in") is not None:
             o.append(bmsg("input", op, op.get("in_headers", []), op.get("in_sel")))
         if op.get("out") is not None:
-            o.append(bmsg("output", op, op.get("out_headers", []), None))
+            o.append(bmsg("output", op, op.get("out_headers", []), op.get("out_sel")))
         for f in op.get("faults", []):
             o.append(f'<{w}fault name="{f["name"]}"><soap:fault name="{f["name"]}" use="literal"/></{w}fault>')
         o.append(f"</{w}operation>")
@@ -178,7 +179,12 @@ def effective_style(spec, op):
     return op.get("ostyle") or spec.get("bstyle") or "document"
 
 
-def gen_parts(rng, tag, kinds, n, simple_ok):
+# part names that are prefixes / suffixes / infixes / superstrings of each other: selection by
+# `part=` / `parts=` must be by equality with a token, never by substring
+NESTED_NAMES = ["request", "requestHeader", "req", "Header", "questH", "st", "requestHeaderExt", "re"]
+
+
+def gen_parts(rng, tag, kinds, n, simple_ok, names=None):
     parts = []
     for i in range(n):
         kind = rng.choice(kinds)
@@ -192,8 +198,31 @@ def gen_parts(rng, tag, kinds, n, simple_ok):
                 ref = f"T{tag}{i}"
             else:
                 ref = rng.choice(["S", "R"]) + f"{tag}{i}"
-        parts.append({"name": f"p{tag}{i}", "kind": kind, "ref": ref})
+        parts.append({"name": names[i] if names else f"p{tag}{i}", "kind": kind, "ref": ref})
     return parts
+
+
+def split_message(rng, op, direction):
+    """bind some parts of the operation's own message to soap:header (part=) and a subset of
+    the rest to soap:body (parts= with one or several tokens); a part may stay unbound"""
+    msg = op["in" if direction == "in" else "out"]
+    parts = msg["parts"]
+    idx = list(range(len(parts)))
+    rng.shuffle(idx)
+    nh = rng.randint(1, min(2, len(parts) - 1))
+    hdr = sorted(idx[:nh])
+    rest = sorted(idx[nh:])
+    body = [i for i in rest if rng.random() < 0.8] or rest[:1]
+    for i in hdr:
+        # header parts are given by element (WSDL 1.1 3.7)
+        if parts[i]["kind"] != "element":
+            parts[i]["kind"], parts[i]["ref"] = "element", "EH" + parts[i]["ref"].replace(":", "")
+    hs = [{"msg": msg, "part": parts[i]["name"]} for i in hdr]
+    sel = [parts[i]["name"] for i in body]
+    if direction == "in":
+        op["in_headers"], op["in_sel"] = hs, sel
+    else:
+        op["out_headers"], op["out_sel"] = hs, sel
 
 
 def gen_spec(rng: random.Random, nops=None, simple_ok=True, conventional=None, oneway=0.0) -> dict:
@@ -224,14 +253,22 @@ def gen_spec(rng: random.Random, nops=None, simple_ok=True, conventional=None, o
         else:
             kinds = ["element"] if rng.random() < 0.7 else ["element", "type"]
         conv = rng.random() < 0.6 if conventional is None else conventional
+        nested = rng.random() < 0.45
+        nin = rng.choice([1, 1, 2, 3] if style == "rpc" else [1, 1, 1, 2])
+        nout = rng.choice([1, 1, 2] if style == "rpc" else [1, 1, 1, 2])
+        if nested:
+            nin, nout = rng.randint(2, 4), rng.randint(1, 3)
+        in_names = rng.sample(NESTED_NAMES, nin) if nested else None
+        out_names = rng.sample(NESTED_NAMES, nout) if nested else None
         op = {
             "name": name,
             "ostyle": ostyle,
             "action": rng.choice([None, "", f"{tns}/{name}", f"urn:act:{name}"]),
             "body_ns": rng.choice([tns, "urn:body"]) if style == "rpc" else rng.choice([None, None, tns]),
-            "in": {"name": f"{name}In" if not conv else name, "parts": gen_parts(rng, f"{k}i", kinds, rng.choice([1, 1, 2, 3] if style == "rpc" else [1, 1, 1, 2]), simple_ok)},
-            "out": {"name": f"{name}Out" if not conv else f"{name}Response", "parts": gen_parts(rng, f"{k}o", kinds, rng.choice([1, 1, 2] if style == "rpc" else [1, 1, 1, 2]), simple_ok)},
+            "in": {"name": f"{name}In" if not conv else name, "parts": gen_parts(rng, f"{k}i", kinds, nin, simple_ok, in_names)},
+            "out": {"name": f"{name}Out" if not conv else f"{name}Response", "parts": gen_parts(rng, f"{k}o", kinds, nout, simple_ok, out_names)},
             "in_sel": None,
+            "out_sel": None,
             "in_headers": [],
             "out_headers": [],
             "faults": [],
@@ -248,7 +285,20 @@ def gen_spec(rng: random.Random, nops=None, simple_ok=True, conventional=None, o
                 fm = {"name": f"{name}Fault{j}", "parts": [{"name": "fault", "kind": "element", "ref": f"EF{k}{j}"}]}
                 op["faults"].append({"name": f"F{k}{j}", "msg": fm})
         if style != "rpc" and len(op["in"]["parts"]) > 1 and rng.random() < 0.5:
-            op["in_sel"] = [op["in"]["parts"][-1]["name"]]
+            r = rng.random()
+            if r < 0.4:
+                op["in_sel"] = [op["in"]["parts"][-1]["name"]]
+            elif r < 0.6:
+                # several tokens, not in message order
+                op["in_sel"] = [p["name"] for p in reversed(op["in"]["parts"][1:])] if len(op["in"]["parts"]) > 2 else [op["in"]["parts"][0]["name"]]
+            else:
+                # header and body parts of the same message
+                split_message(rng, op, "in")
+        if style != "rpc" and op["out"] is not None and len(op["out"]["parts"]) > 1 and rng.random() < 0.35:
+            if rng.random() < 0.5:
+                op["out_sel"] = [op["out"]["parts"][0]["name"]]
+            else:
+                split_message(rng, op, "out")
         spec["ops"].append(op)
     return spec
 
